@@ -324,13 +324,17 @@ def work(P, item):
         st = build_stream()
         h, label, bound = requantize_harness(st, item[1], item[2], item[3]), f"requantize[{item[1]}->{item[2]} bits,nchans={item[3]}]", 3
 
+    wit = [2]
+
     def on_path(ctx, o):
         Ctx.cur = ctx
         P.reached += 1
+        allhold = True
         for n_, c in o["viol"]:
             if ctx.check(c) == z3.unsat:
                 P.obligation(f"{label}/{n_}", "holds", outcome=o["err"] or "ok")
                 continue
+            allhold = False
             m = ctx.solver.model()
             nv = m.eval(o["n"], model_completion=True).as_long()
             params = dict(kind=kind, item=list(item[1:]), n=nv)
@@ -338,6 +342,11 @@ def work(P, item):
                    f"sys.exit(c04.main(json.loads({json.dumps(json.dumps(params))})))\n")
             P.violation(f"{label}-{n_[:30]}".replace(" ", "_").replace("[", "_").replace("]", "_").replace(",", "_").replace("=", "").replace(">", "").replace("*", "x").replace("/", "-"), f"{label}: {n_} (n={nv}; {o['err']})", src, model=params)
             break
+        if allhold and wit[0] > 0 and ctx.check() == z3.sat:
+            wit[0] -= 1
+            nv = ctx.solver.model().eval(o["n"], model_completion=True).as_long()
+            if nv <= 64:
+                P.witness("c04", dict(kind=kind, item=list(item[1:]), n=nv), f"{label}-witness-{nv}".replace(" ", "_").replace("[", "_").replace("]", "_").replace(",", "_").replace("=", "").replace(">", ""), label)
         Ctx.cur = None
         return "stop" if len(P.cands) >= 2 else None
     try:
